@@ -435,7 +435,7 @@ async fn run_ops(c: &[u64]) -> Option<Vec<u64>> {
                     if tag == 9 && ch.out && ch.seen && len <= (1 << 20) {
                         ch.carrier.feed(&frame(len, t));
                     }
-                    if tag == 14 && !ch.out && !ch.seen && len <= (1 << 20) {
+                    if tag == 14 && !ch.out && len <= (1 << 20) {
                         ch.seen = true;
                         ch.carrier.feed(&frame(len, t));
                     }
